@@ -132,9 +132,155 @@ func genClose(r rng, seed uint64, id string) *sdl.Program {
 	return p
 }
 
-func genConfig(r rng, seed uint64, id string) *sdl.Program {
+var cfgLeafInts = []string{"sim.a", "sim.b", "sim.c", "sim.sub.a", "other.n"}
+var cfgLeafStrs = []string{"sim.name", "sim.sub.b", "other.tag"}
+var cfgStrVals = []string{"va", "vb", "vc"}
+
+func setPath(doc map[string]any, path string, v any) {
+	parts := splitDots(path)
+	cur := doc
+	for i, k := range parts {
+		if i == len(parts)-1 {
+			cur[k] = v
+			return
+		}
+		nx, ok := cur[k].(map[string]any)
+		if !ok {
+			nx = map[string]any{}
+			cur[k] = nx
+		}
+		cur = nx
+	}
+}
+
+func splitDots(s string) []string {
+	var out []string
+	cur := ""
+	for _, c := range s {
+		if c == '.' {
+			out = append(out, cur)
+			cur = ""
+		} else {
+			cur += string(c)
+		}
+	}
+	return append(out, cur)
+}
+
+func genDoc(r rng, density float64) map[string]any {
+	doc := map[string]any{}
+	for _, k := range cfgLeafInts {
+		if r.p(density) {
+			setPath(doc, k, r.n(0, 9))
+		}
+	}
+	for _, k := range cfgLeafStrs {
+		if r.p(density) {
+			setPath(doc, k, pick(r, cfgStrVals))
+		}
+	}
+	return doc
+}
+
+// genConfig: 1-4 configuration sources of all kinds added through all options, components
+// with configuration fields from the fixed menu, user processors of all order classes.
+func genConfig(r rng, seed uint64, id string, merge bool) *sdl.Program {
 	p := &sdl.Program{ID: id, Seed: seed, Family: FamConfig, NIfaces: 1}
+	if merge {
+		p.Family = FamCfgMerge
+	}
+	// sources
+	ns := r.n(1, 4)
+	if merge {
+		ns = r.n(2, 4)
+	}
+	kinds := []string{"raw", "raw", "file", "args", "sim", "sim"}
+	vias := []string{"AddConfigLoader", "AddConfigLoader", "AddLoaders", "SetConfigLoader"}
+	for i := 0; i < ns; i++ {
+		s := &sdl.Source{ID: fmt.Sprintf("src%d", i), Kind: pick(r, kinds), Via: pick(r, vias), Doc: genDoc(r, 0.55)}
+		if i == 0 && r.p(0.6) {
+			s.Via = "SetConfigLoader"
+		}
+		if s.Kind == "file" && r.p(0.5) {
+			s.Via = "SetConfig"
+		}
+		if s.Kind == "sim" {
+			s.OrderClass = pick(r, orderClasses)
+			s.Order = pick(r, []int{-3, 0, 0, 1, 2})
+		}
+		if len(s.Doc) == 0 {
+			setPath(s.Doc, "sim.a", r.n(1, 9))
+		}
+		if r.p(0.06) {
+			switch s.Kind {
+			case "file":
+				s.Fault = pick(r, []string{"missing", "isdir", "garbage", "empty"})
+			case "sim":
+				s.Fault = pick(r, []string{"error", "garbage", "empty"})
+			case "raw":
+				s.Fault = pick(r, []string{"garbage", "empty"})
+			}
+		}
+		p.Sources = append(p.Sources, s)
+	}
+	// components with configuration fields
+	nt := r.n(1, 3)
+	for ti := 0; ti < nt; ti++ {
+		t := &sdl.Type{Name: fmt.Sprintf("%sT%d", id, ti), Init: r.p(0.5), Ifaces: []int{0}}
+		nf := r.n(1, 4)
+		for fi := 0; fi < nf; fi++ {
+			cf := genConf(r, fmt.Sprintf("C%d", fi))
+			if merge {
+				// precedence family: fields never make the start fail
+				cf.Optional, cf.Validate = true, ""
+				if cf.Menu == "sum" || cf.Menu == "mul" {
+					cf.Menu, cf.Keys, cf.GoType = "prefixStruct", []string{"sim.sub"}, "struct"
+				}
+			}
+			t.Config = append(t.Config, cf)
+		}
+		p.Types = append(p.Types, t)
+		p.Instances = append(p.Instances, &sdl.Instance{ID: fmt.Sprintf("c%d", ti), Type: t.Name})
+	}
+	// user processors interleave with the built-in configuration stages
+	classes := []string{"inst", "smart", "plain"}
+	for i := 0; i < r.n(0, 3); i++ {
+		p.Procs = append(p.Procs, &sdl.Proc{ID: fmt.Sprintf("pp%d", i), Class: pick(r, classes), OrderClass: pick(r, orderClasses), Order: pick(r, []int{-5, 0, 1, 3, 4, 6, 9, 20}), Props: true})
+	}
 	return p
+}
+
+func genConf(r rng, field string) *sdl.Conf {
+	c := &sdl.Conf{Field: field, GoType: "int"}
+	c.Embed = embedChain(r, 0.15)
+	switch r.IntN(10) {
+	case 0:
+		c.Menu, c.Keys = "value", []string{pick(r, cfgLeafInts)}
+	case 1:
+		c.Menu, c.Keys, c.Default = "valueDef", []string{pick(r, cfgLeafInts)}, fmt.Sprint(r.n(0, 9))
+	case 2:
+		c.Menu, c.Keys = "prop", []string{pick(r, cfgLeafInts)}
+	case 3, 4:
+		c.Menu, c.Keys = "sum", []string{pick(r, cfgLeafInts[:3]), pick(r, cfgLeafInts[:3])}
+	case 5:
+		c.Menu, c.Keys = "mul", []string{pick(r, cfgLeafInts[:3]), pick(r, cfgLeafInts[:3])}
+	case 6:
+		c.Menu, c.Keys = "prefixInt", []string{pick(r, cfgLeafInts)}
+	case 7:
+		c.Menu, c.Keys, c.GoType = "prefixStruct", []string{"sim.sub"}, "struct"
+	case 8:
+		c.Menu, c.Keys, c.GoType = "value", []string{pick(r, cfgLeafStrs)}, "string"
+	case 9:
+		c.Menu, c.Default = "literal", fmt.Sprint(r.n(0, 9))
+	}
+	c.Optional = r.p(0.25)
+	if c.GoType == "int" && r.p(0.5) {
+		c.Validate = pick(r, []string{"min=3", "max=5", "required", "min=2 max=7", "gte=1"})
+	}
+	if c.GoType == "string" && r.p(0.5) {
+		c.Validate = pick(r, []string{"eq=va", "required", "ne=vb"})
+	}
+	return c
 }
 
 func genEmbed(r rng, seed uint64, id string) *sdl.Program {
